@@ -38,7 +38,7 @@ Inductive obs :=
 | BIter (l : list (key * val))
 | BReplay (l : list wop)
 | BNfp (n : nat)
-| BCompact (lo hi : okey)
+| BCompact (r : option (okey * okey))   (* None: the request never reached the base store *)
 | BNone.                      (* the operation addressed something that does not exist *)
 
 Fixpoint set_nth {A} (n : nat) (x : A) (d : A) (l : list A) : list A :=
